@@ -5,6 +5,6 @@ python3 /verif/lib/gen_gateway.py $seed $n $prof > /verif/.work/gw_cases_$seed.t
 cat > /verif/.work/overlay_gw.json <<EOT
 {"Replace": {"/repo/gateway/zz_verif_drv_test.go": "/verif/harness/gateway_drv_test.go", "/repo/packets1/zz_verif_canon.go": "/verif/harness/packets1_canon.go"}}
 EOT
-(cd /repo && export GOFLAGS=-mod=mod GOPROXY=off GOSUMDB=off GOTOOLCHAIN=local GODEBUG=asynctimerchan=0; VERIF_OUT=/verif/.work/gw_$seed.out VERIF_CASES=/verif/.work/gw_cases_$seed.txt timeout 900 go1.26.8 test -tags verif -overlay /verif/.work/overlay_gw.json -count=1 -timeout 14m -run 'TestVerifGateway$' ./gateway/ 2>&1 | grep -v '^ok' | head -5)
+(cd /repo && export GOFLAGS=-mod=mod GOPROXY=off GOSUMDB=off GOTOOLCHAIN=local GODEBUG=asynctimerchan=0; VERIF_OUT=/verif/.work/gw_$seed.out VERIF_CASES=/verif/.work/gw_cases_$seed.txt timeout 300 go1.26.8 test -tags verif -overlay /verif/.work/overlay_gw.json -count=1 -timeout 4m -run 'TestVerifGateway$' ./gateway/ 2>&1 | grep -v '^ok' | head -5)
 /verif/lean/.lake/build/bin/bisq gateway < /verif/.work/gw_$seed.out > /verif/.work/gw_$seed.rep
 tail -1 /verif/.work/gw_$seed.rep
